@@ -21,6 +21,8 @@ CHECKS['C07'] = dict(level='fault_enumeration', text='Fault enumeration on the r
 CHECKS['C10'] = dict(level='model_checking', text='Explicit-state search over all operation sequences up to a depth on the real subjects, each step compared with an executable sequential definition; plus exhaustive schedule exploration of 2-3 threads issuing operations from several initial states, with a brute-force linearizability check (two linearization points for Unsubscribe, two for async completion) against the same definition.', note='Depth 5/6, 2/3 observers, two values, buffer sizes 1, 2, unlimited; concurrent part: 1-2 operations per thread, deviation bound 2/3; read-only operations (CountObservers etc.) are compared in the sequential part only.', technique='explicit-state search over operation sequences on the implementation + stateless schedule exploration with linearizability oracle', ref='§5 C10')
 CHECKS['C05'] = dict(level='model_checking', text='Exhaustive enumeration of every interleaving of every tuple of bounded source scripts on one thread (each notification processed to quiescence) against an executable state-machine definition of each multi-source operator; then the same scripts on one thread per source under every schedule within the deviation bound, with a set-valued oracle: the outcome must be the definition\'s outcome for some interleaving.', note='2 sources (3 for the n-ary ones with shorter scripts), scripts <= 2/3 values, deviation bound 2/3; the concurrent oracle assumes each notification of a source is atomic with respect to the definition.', technique='exhaustive enumeration of arrival orders + stateless schedule exploration with a set-valued reference-model oracle', ref='§5 C05')
 CHECKS['C11'] = dict(level='model_checking', text='Explicit-state search over all event sequences (subscribe, unsubscribe, source notifications, connect, disconnect) up to a depth for every flag/connector combination of Share and connectable observables, compared step by step with a reference model (traces, live upstream subscriptions, total upstream subscriptions); plus exhaustive schedule exploration of concurrent subscribe/unsubscribe/connect/notify programs with invariants.', note='Depth 5/7, 2 subscribers, two values; the concurrent part checks invariants (at most one open upstream subscription, no panic/deadlock, grammar, order), not full linearizability.', technique='explicit-state search over event sequences on the implementation + stateless schedule exploration', ref='§5 C11')
+CHECKS['C06'] = dict(level='model_checking', text='Sequential: every operator/pair x script x cut position (outside / inside a callback) with IsClosed, repeated Unsubscribe, Wait and silence afterwards. Concurrent: producer, 0-2 unsubscribers and 1-2 waiters as managed threads on nine pipelines, every schedule within the deviation bound, oracles on logical timestamps taken by the scheduler.', note='3 values, <= 4 threads, deviation bound 2/3 (1/2 with four threads); emission time = the moment the producer issues Next.', technique='exhaustive cut-point enumeration + stateless schedule exploration with logical-time oracles', ref='§5 C06')
+CHECKS['C14'] = dict(level='model_checking', text='Never-ending pushed source -> operator -> early-terminating downstream for every pass-through operator, the blocking/multi-source/hand-off/sharing operators and pairs of blocking operators, six terminators, each cut position; Subscribe on its own managed thread; after the terminator fired nothing is pushed and the scheduler\'s quiescence is the observation point: source released, Subscribe returned, no library thread left, later push reaches nothing. Plus context cancellation of the context-aware sources under the virtual clock.', note='Deviation bound 1/2; cut positions 1-2 / 1-3; the whole waits-inside-Subscribe class is a recorded known finding (151 signatures).', technique='stateless schedule exploration of the implementation with a quiescence oracle', ref='§5 C14')
 NA = {}
 ALL = ['C%02d' % i for i in range(1, 21)]
 m = {
